@@ -283,6 +283,10 @@ pub fn accept_invariants(
     witness: &dyn Fn() -> Value,
 ) {
     rep.count(&format!("c02:accepted:{entry}"));
+    if rep.prop == "C02" {
+        let outs: usize = o.spends.iter().map(|s| s.create_coin.len()).sum();
+        rep.cell(&format!("{entry}:spends{}:outs{}:big{}:fee{}", o.spends.len().min(8), outs.min(6), o.removal_amount >= 1u128 << 64, o.reserve_fee > 0));
+    }
     let fail = |rep: &mut Report, what: &str, msg: String| {
         rep.violation(
             &format!("accepted-invariant:{what}"),
